@@ -42,7 +42,7 @@ type Event struct {
 // Fault is one injected fault.
 type Fault struct {
 	Point string // "<op>:<node>#<ordinal>"
-	Kind  string // "error", "cancel" (the operation reports the cancellation) or "cancel-silent" (the context is cancelled, the operation still answers normally)
+	Kind  string // "error", "cancel" (the operation reports the cancellation), "cancel-silent" (the context is cancelled, the operation still answers normally) or "stall" (the operation ends only when its context does)
 	Hit   bool
 	Err   error
 }
@@ -50,6 +50,8 @@ type Fault struct {
 // Mon is the monitor shared by the source and destination wrappers of one copy call.
 type Mon struct {
 	G *gen.DAG
+
+	stalled int // operations held by a "stall" fault
 
 	mu          sync.Mutex
 	seq         int64
@@ -94,6 +96,13 @@ func New(g *gen.DAG) *Mon {
 func (m *Mon) Ops() int64 { return m.ops.Load() }
 
 // Inflight returns the current gauges.
+// Stalled is the number of operations currently held by a "stall" fault.
+func (m *Mon) Stalled() int {
+	m.mu.Lock()
+	defer m.mu.Unlock()
+	return m.stalled
+}
+
 func (m *Mon) Inflight() (src, dst int) {
 	m.mu.Lock()
 	defer m.mu.Unlock()
@@ -151,6 +160,17 @@ func (m *Mon) at(ctx context.Context, op string, node int) error {
 	m.mu.Unlock()
 	if hit == nil {
 		return nil
+	}
+	if hit.Kind == "stall" {
+		// an operation that only ends when its context does (a read from a silent peer)
+		m.mu.Lock()
+		m.stalled++
+		m.mu.Unlock()
+		<-ctx.Done()
+		m.mu.Lock()
+		m.stalled--
+		m.mu.Unlock()
+		return ctx.Err()
 	}
 	if hit.Kind == "cancel" || hit.Kind == "cancel-silent" {
 		if cancel != nil {
